@@ -100,15 +100,14 @@ pub fn check(s: &'static dyn Proto, c: &Case, st: &mut Stats, _k: &KnownFindings
     let fake_sk = slice(&m, Ty::ServerSetup, "fake_sk", &sb).to_vec();
     let server_pk = s.setup_public_key(&setup);
     ensure_eq!(rm::ke_public_key(m.ke, &server_sk), Some(server_pk.clone()), "server public key != sk*G (reference)");
-    ensure!(r0.has_draw(&oprf_seed), "oprf_seed is not a verbatim draw of the setup RNG");
-    let (seed_static, sk_ref) = witness_keypair(&r0, &m, &server_pk)
-        .ok_or_else(|| Fail::new("server static key pair is not DeriveDiffieHellmanKeyPair(fresh Nsk-byte draw)"))?;
-    ensure_eq!(sk_ref, server_sk, "server static private key != DeriveDiffieHellmanKeyPair(seed).sk");
+    // how the long-term server secrets (OPRF seed, static and fake key pair) are generated is not
+    // part of what the RFC fixes for messages and session outputs; their freshness is C17's subject.
+    // They are only located on the tape when possible (label), never required to be.
     let fake_pk = rm::ke_public_key(m.ke, &fake_sk).ok_or_else(|| Fail::new("fake sk invalid for the reference"))?;
-    let (seed_fake, _) = witness_keypair(&r0, &m, &fake_pk)
-        .ok_or_else(|| Fail::new("fake key pair is not DeriveDiffieHellmanKeyPair(fresh Nsk-byte draw)"))?;
-    if !c.tape.structured() {
-        ensure!(seed_fake != seed_static, "fake and static key pairs derive from the same draw");
+    if r0.has_draw(&oprf_seed) && witness_keypair(&r0, &m, &server_pk).is_some() && witness_keypair(&r0, &m, &fake_pk).is_some() {
+        st.label("setup-secrets-located-on-tape");
+    } else {
+        st.label("setup-secrets-not-located-on-tape(not required)");
     }
 
     // ---------------- registration
